@@ -33,6 +33,12 @@ type Server struct {
 	supportsConfiguration bool
 	payeeTemplatesCache   sync.Map // map[protocol.DocumentURI]map[string][]analyzer.PostingTemplate
 
+	// refreshSeq counts the configuration refreshes requested so far (guarded by
+	// settingsMu). The answer to a refresh is applied only while that refresh is
+	// still the newest one, see applyConfiguration.
+	refreshSeq uint64
+	refreshMu  sync.Mutex // makes "still the newest?", parse and store one step
+
 	// docVersions holds, for every open document, the sequence number of the
 	// didOpen/didChange notification that produced its current content. A
 	// diagnostics task publishes only while the number it captured is still the
@@ -173,7 +179,7 @@ func (s *Server) Initialized(_ context.Context, _ *protocol.InitializedParams) e
 			})
 		}
 	}
-	go s.refreshConfiguration(context.Background())
+	go s.refreshConfiguration(context.Background(), s.nextRefresh())
 	return nil
 }
 
